@@ -379,7 +379,7 @@ def negative_stage(res, seed):
 def run(tier, seed, replay=None):
     res = Result("C06", tier, seed, RULE)
     rng = rng_for(seed, "C06")
-    n = 250 if tier == "quick" else 4000
+    n = 250 if tier == "quick" else 20000
     projs, builders = [], []
     ptable = builder_ptable()
     for _ in range(n):
@@ -402,7 +402,7 @@ def run(tier, seed, replay=None):
     # end to end: generated accessors of referencing keys
     erng = rng_for(seed, "C06", "E")
     crates = []
-    for i in range(2 if tier == "quick" else 10):
+    for i in range(2 if tier == "quick" else 24):
         b = Builder(erng, tier, ptable)
         p = b.build(erng.randint(5, 8), erng.randint(6, 10))
         c = e2e.ProbeCrate("c06_%d" % i, p)
